@@ -234,7 +234,10 @@ def _workers() -> int:
 def _plan(cd, tier):
     scale = float(os.environ.get("VERIF_SCALE", "1.0"))
     plan = []
+    only = os.environ.get("VERIF_ONLY_BATCH")  # development aid: one batch of a check (no registered command sets it)
     for b in cd.batches:
+        if only and b.name not in only.split(","):
+            continue
         n = b.runs_quick if tier == "quick" else b.runs_thorough
         n = max(1, int(n * scale))
         plan.append((b, n))
